@@ -221,7 +221,8 @@ func (c *Client) Connect() error {
 	}
 	// TODO: Do we always want to send initial presence automatically ?
 	// Do we need an option to avoid that or do we rely on client to send the presence itself ?
-	err = c.sendWithWriter(c.transport, []byte(InitialPresence))
+	// The initial presence is the first stanza of the session: the server counts it as well.
+	err = c.SendRaw(InitialPresence)
 	// Execute the post first connection hook. Typically this holds "ask for roster" and this type of actions.
 	if c.PostConnectHook != nil {
 		err = c.PostConnectHook()
@@ -318,15 +319,25 @@ func (c *Client) Send(packet stanza.Packet) error {
 		return errors.New("cannot marshal packet " + err.Error())
 	}
 
-	// Store stanza as non-acked as part of stream management
-	// See https://xmpp.org/extensions/xep-0198.html#scenarios
-	if c.config.StreamManagementEnable {
-		if _, ok := packet.(stanza.SMRequest); !ok {
-			toStore := stanza.UnAckedStz{Stz: string(data)}
-			c.Session.SMState.UnAckQueue.Push(&toStore)
-		}
+	// Stream management requests and answers are not stanzas: they are neither counted nor held.
+	switch packet.(type) {
+	case stanza.SMRequest, *stanza.SMRequest, stanza.SMAnswer, *stanza.SMAnswer:
+		return c.sendWithWriter(c.transport, data)
 	}
+	return c.sendStanza(data)
+}
 
+// sendStanza writes a stanza to the server. With stream management it is first stored as
+// non-acked (see https://xmpp.org/extensions/xep-0198.html#scenarios). Storing and writing are
+// a single critical section, so that the order of the queue is the order on the wire, whatever
+// the number of goroutines sending.
+func (c *Client) sendStanza(data []byte) error {
+	if c.config.StreamManagementEnable && c.Session != nil && c.Session.SMState.UnAckQueue != nil {
+		uaq := c.Session.SMState.UnAckQueue
+		uaq.RWMutex.Lock()
+		defer uaq.RWMutex.Unlock()
+		uaq.Push(&stanza.UnAckedStz{Stz: string(data)})
+	}
 	return c.sendWithWriter(c.transport, data)
 }
 
@@ -363,13 +374,7 @@ func (c *Client) SendRaw(packet string) error {
 		return errors.New("client is not connected")
 	}
 
-	// Store stanza as non-acked as part of stream management
-	// See https://xmpp.org/extensions/xep-0198.html#scenarios
-	if c.config.StreamManagementEnable {
-		toStore := stanza.UnAckedStz{Stz: packet}
-		c.Session.SMState.UnAckQueue.Push(&toStore)
-	}
-	return c.sendWithWriter(c.transport, []byte(packet))
+	return c.sendStanza([]byte(packet))
 }
 
 func (c *Client) sendWithWriter(writer io.Writer, packet []byte) error {
